@@ -300,11 +300,16 @@ func checkC01(c *core.Ctx) error {
 		return err
 	}
 	total := len(cases)
-	if c.Quick() {
-		// fixed core: every case whose type has at most one constructor; plus a seeded sample of the rest
+	{
+		// fixed core: every body-form case whose type has at most one constructor (quick) / two (thorough);
+		// plus a seeded sample of the rest (the universe has >150k cases since the call-site forms were widened)
+		maxCore, nRest := 2, 2000
+		if !c.Quick() {
+			maxCore, nRest = 3, 30000
+		}
 		var core_, rest []GenCase
 		for _, g := range cases {
-			if g.T.Size() <= 2 && g.F == "body" {
+			if g.T.Size() <= maxCore && g.F == "body" {
 				core_ = append(core_, g)
 			} else {
 				rest = append(rest, g)
@@ -312,8 +317,8 @@ func checkC01(c *core.Ctx) error {
 		}
 		rng := core.NewRand(c.Seed)
 		rng.Shuffle(len(rest), func(a, b int) { rest[a], rest[b] = rest[b], rest[a] })
-		if len(rest) > 2000 {
-			rest = rest[:2000]
+		if len(rest) > nRest {
+			rest = rest[:nRest]
 		}
 		cases = append(core_, rest...)
 	}
@@ -351,7 +356,7 @@ func checkC01(c *core.Ctx) error {
 	c.Set("evaluations", len(outs))
 	c.Set("distinct_nontrivial", ok)
 	c.Set("rule", fmt.Sprintf("TLC enumerates GenCases.tla: every type term of constructor depth <= %d over 13 leaves (basics, named basics, local/imported/same-named-import/recursive/embedded structs) x 15 plugins (argument shape per plugin) x 6 call-site forms, restricted to Supported(plugin, T); each case is a real package on which the real goderive runs; TLC validates the hook trace (every helper requested was generated exactly once, tables consistent) and the go/types observations (exit 0, type-checks, no unresolved call); non-trivial = generated and type-checked", depth))
-	c.Set("exhaustive", !c.Quick())
+	c.Set("exhaustive", len(cases) == total)
 	c.Assume("go/types with a source importer is the definition of 'type-checks' and of 'imports exactly what it uses'")
 	return nil
 }
